@@ -337,7 +337,7 @@ func progDepth(p Prog) int {
 }
 
 func check(run *common.Run) {
-	run.Res.Rule = "cases = (a) structural queries: for every generated declaration set (3–6 struct types embedding earlier ones by value / by pointer / as a plain field, up to depth 3, value- and pointer-receiver methods drawn from four names with two signatures, func() fields named like methods, 3–4 interface types with embedding) every (struct type, selector name), every method set of T and *T, every (T or *T, interface) pair; (b) programs: the same sets crossed with 28 scenario forms (call on variable / pointer / &v / function result, method value with and without a later mutation, method expression, interface assignment by value and by pointer with and without a later mutation, assertion from a typed / empty interface to named, pointer, interface and anonymous-interface types in both result forms, type switches with and without binding, nil interface values, error / fmt.Stringer / io.Writer / sort.Interface handed to host functions); every method increments and prints its receiver state, every program dumps its variable at the end; non-trivial = the type under test embeds at least one struct; distinct = distinct protocol line"
+	run.Res.Rule = "cases = (a) structural queries: for every generated declaration set (3–6 struct types embedding earlier ones by value / by pointer / as a plain field, up to depth 3, value- and pointer-receiver methods drawn from four names with two signatures, func() fields named like methods, 3–4 interface types with embedding) every (struct type, selector name), every method set of T and *T, every (T or *T, interface) pair; (b) programs: the same sets crossed with 29 scenario forms (call on variable / pointer / &v / function result, method value with and without a later mutation, method expression, interface assignment by value and by pointer with and without a later mutation, assertion from a typed / empty interface to named, pointer, interface and anonymous-interface types in both result forms, type switches with and without binding, nil interface values, error / fmt.Stringer / io.Writer / sort.Interface handed to host functions); every method increments and prints its receiver state, every program dumps its variable at the end; non-trivial = the type under test embeds at least one struct; distinct = distinct protocol line"
 	drv, err := common.StartDriver("C05")
 	if err != nil {
 		run.Errorf("driver: %v", err)
@@ -506,6 +506,11 @@ func check(run *common.Run) {
 			}
 			if !specOK {
 				run.Disagree(common.Disagreement{Kind: "spec-vs-ref", Input: p, Spec: ans["g"], Ref: rf.Out + " " + rf.Err, Note: "replay of " + f.ID})
+			}
+			if !modelOK && !same {
+				// the finding's own input now behaves differently from the model of the unchanged code
+				run.Disagree(common.Disagreement{Kind: "impl-vs-ref", Input: p, Impl: im.Out + " " + im.Err, Model: ans["y"], Ref: rf.Out + " " + rf.Err,
+					Note: "replay of " + f.ID + ": differs from the reference and from the model of the unchanged code"})
 			}
 			continue
 		}
